@@ -398,7 +398,7 @@ impl Check for C22 {
     }
     fn plan(&self, tier: Tier) -> Plan {
         let quick = tier == Tier::Quick;
-        Plan { cases: if quick { 960 } else { 9600 }, max_tape: 40, min_slots: 4, max_slots: 41, shard_cases: 10, shard_timeout_s: if quick { 300 } else { 900 }, max_shrink_iters: 150, ..Plan::default() }
+        Plan { cases: if quick { 2400 } else { 24_000 }, max_tape: 40, min_slots: 4, max_slots: 41, shard_cases: 10, shard_timeout_s: if quick { 300 } else { 900 }, max_shrink_iters: 150, ..Plan::default() }
     }
     fn abort_is_violation(&self) -> bool {
         true
